@@ -15,7 +15,7 @@ ENGINE = {'name': 'mquic',
          'TCP-like local address; the same with every combination of the fixed/long-header bits cleared, cut to 0..1199 bytes, zero-padded to 1453..3000 bytes; '
          'behind the gate (each costs the 100 ms accept timeout, 5 per quick run rotated by seed, all in the thorough tier): payload bit flip, unsupported version, '
          'retyped as Handshake, random 1200/1452-byte long-header datagrams, all zeros, cut to exactly 1200, padded to 1452; random datagrams of sizes around '
-         '1200/1452 with gate bits cleared; non-trivial = passes the gate of the wire definition (UDP, 1200..1452 bytes, first byte & 0xc0 == 0xc0)',
+         '1200/1452 with gate bits cleared; plus, for C04, a child process (the test binary re-executed) in which ONE provisioned matcher is entered by 2-4 goroutines at overlapping times (released together and 10/30/50 ms apart, 8 rounds) on distinct connections carrying the captured Initials: a crash of the child is C04:quic:panic, every Initial must match; non-trivial = passes the gate of the wire definition (UDP, 1200..1452 bytes, first byte & 0xc0 == 0xc0)',
  'trusted_base': ['quic-go (Transport.ListenEarly / EarlyListener.Accept with a 100 ms deadline) decides everything behind the gate; the model only says Yes-or-No there',
                   'the captured packets are trusted to be well-formed Initials (they are accepted by quic-go in the package\'s own tests)'],
  'modelled': ['modules/l4quic/matcher.go Match up to the hand-over to quic-go: UDP check, ReadAtLeast semantics in matching mode, fixed-bit and long-header tests, size gate '
